@@ -556,3 +556,17 @@ def is_method_call(expr, attrs, rd=None, at=None):
         al = rd.origins_at(at if at is not None else expr, expr.func)
         return bool(al) and all(isinstance(x, ast.Attribute) and x.attr in attrs for x in al)
     return False
+
+
+def loop_anchor(cfg, node):
+    """cfg ids to use for dominance questions about `node`: a call inside for-loops over a collection is
+    represented by its outermost enclosing for statement (an empty collection has nothing to do anyway)"""
+    outer = None
+    for a in ancestors(node):
+        if isinstance(a, FUNC_TYPES):
+            break
+        if isinstance(a, (ast.For, ast.AsyncFor)):
+            outer = a
+    if outer is not None:
+        return cfg.ids(outer)
+    return cfg.node_of(node)
